@@ -571,3 +571,53 @@ func Assign(na datamodel.NodeAssembler, v *refval.V) error {
 	}
 	panic("refschema.Assign: unsupported value")
 }
+
+// AssignKV: as Assign, but map entries are supplied through AssembleKey().AssignString and
+// AssembleValue() (the route codecs use) instead of AssembleEntry.
+// Assign writes an abstract tree (typed or representation level) into an assembler; Absent
+// entries are skipped. The first error is returned.
+func AssignKV(na datamodel.NodeAssembler, v *refval.V) error {
+	switch v.K {
+	case refval.Null:
+		return na.AssignNull()
+	case refval.Bool:
+		return na.AssignBool(v.B)
+	case refval.Int:
+		return na.AssignInt(v.I)
+	case refval.Float:
+		return na.AssignFloat(math.Float64frombits(v.U))
+	case refval.String:
+		return na.AssignString(v.S)
+	case refval.Bytes:
+		return na.AssignBytes([]byte(v.S))
+	case refval.List:
+		la, err := na.BeginList(int64(len(v.L)))
+		if err != nil {
+			return err
+		}
+		for _, c := range v.L {
+			if err := AssignKV(la.AssembleValue(), c); err != nil {
+				return err
+			}
+		}
+		return la.Finish()
+	case refval.Map:
+		ma, err := na.BeginMap(int64(len(v.L)))
+		if err != nil {
+			return err
+		}
+		for i, c := range v.L {
+			if c.K == refval.Absent {
+				continue
+			}
+			if err := ma.AssembleKey().AssignString(v.Keys[i]); err != nil {
+				return err
+			}
+			if err := AssignKV(ma.AssembleValue(), c); err != nil {
+				return err
+			}
+		}
+		return ma.Finish()
+	}
+	panic("refschema.Assign: unsupported value")
+}
